@@ -35,8 +35,22 @@ instance (s : Schema) : Decidable (QueryRootHasFields s) := by
         ⟨fun h q' d' h1 h2 => by cases h1; rw [hl] at h2; cases h2; exact h,
          fun h => h q d rfl hl⟩
 
-theorem noAllHidden_of_loaded (cfg : Cfg) {sd : SchemaDoc} {s : Schema} (hload : load sd = .ok s)
-    (hq : QueryRootHasFields s) : NoAllHidden cfg s := by
+/-- the query root of a loaded schema is an object type (the loader's last check,
+    `loaded_rootTypesAreObjects`), so it has fields of its own -/
+theorem queryRootHasFields_of_loaded {sd : SchemaDoc} {s : Schema} (hload : load sd = .ok s) : QueryRootHasFields s := by
+  have hr := loaded_rootTypesAreObjects hload
+  intro q d hq hl
+  simp only [Spec.rootTypesAreObjects, List.all_cons, List.all_nil, Bool.and_true, Bool.and_eq_true, hq] at hr
+  have h1 := hr.1
+  simp only [Spec.typeIs, hl, beq_iff_eq] at h1
+  exact Or.inl h1
+
+/-- **no printed definition of a LOADED schema has only hidden fields**: the only definition the loader
+    adds (hidden) fields to is the query root, an object type with at least one field of its own
+    (formerly under the hypothesis `QueryRootHasFields`, which failed for `scalar Query`) -/
+theorem noAllHidden_of_loaded (cfg : Cfg) {sd : SchemaDoc} {s : Schema} (hload : load sd = .ok s) :
+    NoAllHidden cfg s := by
+  have hq : QueryRootHasFields s := queryRootHasFields_of_loaded hload
   obtain ⟨st, r1, d1, F⟩ := loaded_facts hload
   intro p hp _
   cases hb : cfg.emitBuiltin with
